@@ -73,7 +73,10 @@ Reach(S) == ReachFrom(S, {S.start}, {S.start})
 
 ---------------------------------------------------------------------------
 (* global components and what a QName denotes (symbol spaces: types, elements) *)
-Comp(f, it) == [f |-> f.name, ns |-> f.tns, n |-> it.n, k |-> it.k, it |-> it]
+\* the namespace of the components a file declares: a schema file's target namespace; for a WSDL the target namespace of
+\* its inline schema (`stns`), which may differ from that of the definitions (f.tns: messages, port types, bindings)
+SchemaTns(f) == IF "stns" \in DOMAIN f THEN f.stns ELSE f.tns
+Comp(f, it) == [f |-> f.name, ns |-> SchemaTns(f), n |-> it.n, k |-> it.k, it |-> it]
 TypesOf(S) == UNION {{Comp(f, it) : it \in {x \in Items(f) : x.k \in {"complex", "simple"}}} : f \in {g \in Files(S) : g.name \in Reach(S)}}
 ElemsOf(S) == UNION {{Comp(f, it) : it \in {x \in Items(f) : x.k = "element"}} : f \in {g \in Files(S) : g.name \in Reach(S)}}
 
@@ -118,7 +121,7 @@ PMax(p) == IF "max" \in DOMAIN p THEN p.max ELSE "1"
 \* "unqualified" (the file record says `unqualified` when the schema does not set elementFormDefault="qualified").
 \* An unqualified local element is in no namespace; references to global elements are always qualified.
 ElForm(f, p) == IF "form" \in DOMAIN p THEN p.form ELSE IF "unqualified" \in DOMAIN f THEN "unqualified" ELSE "qualified"
-ElNs(f, p) == IF ElForm(f, p) = "qualified" THEN f.tns ELSE "unqualified"
+ElNs(f, p) == IF ElForm(f, p) = "qualified" THEN SchemaTns(f) ELSE "unqualified"
 
 \* members declared by a content model, flattened, with the occurrence combined along the enclosing particles
 RECURSIVE Flat(_, _, _, _, _, _, _)
